@@ -78,6 +78,22 @@ Ltac strip_r t :=
   | _ => t
   end.
 
+Ltac strip_r_ne t :=
+  lazymatch t with
+  | set_r_cfg _ ?y => strip_r_ne y | set_r_nakproc _ ?y => strip_r_ne y | set_r_status _ ?y => strip_r_ne y
+  | set_r_state _ ?y => strip_r_ne y | set_r_phase _ ?y => strip_r_ne y | set_r_meta _ ?y => strip_r_ne y
+  | set_r_segs _ ?y => strip_r_ne y | set_r_recvd _ ?y => strip_r_ne y | set_r_staged _ ?y => strip_r_ne y
+  | set_r_cond _ ?y => strip_r_ne y | set_r_dc _ ?y => strip_r_ne y | set_r_fstat _ ?y => strip_r_ne y
+  | set_r_resps _ ?y => strip_r_ne y | set_r_timer _ ?y => strip_r_ne y | set_r_cksum _ ?y => strip_r_ne y
+  | set_r_fsize _ ?y => strip_r_ne y | set_r_ack _ ?y => strip_r_ne y | set_r_fin _ ?y => strip_r_ne y
+  | set_r_prompt _ ?y => strip_r_ne y | set_r_naks _ ?y => strip_r_ne y | set_r_nak_recvd _ ?y => strip_r_ne y
+  | set_r_delayed _ ?y => strip_r_ne y | set_r_fs _ ?y => strip_r_ne y | set_r_out _ ?y => strip_r_ne y
+  | upd_inact _ ?y => strip_r_ne y | upd_ack _ ?y => strip_r_ne y | upd_nak _ ?y => strip_r_ne y
+  | prepare_ack_eof ?y => strip_r_ne y | prepare_finished _ ?y => strip_r_ne y
+  | shutdown _ ?y => strip_r_ne y
+  | _ => t
+  end.
+
 (* destruct the pair returned by a call, keeping the first component as [fst call] *)
 Ltac destr_pair_keep :=
   match goal with
